@@ -1067,6 +1067,11 @@ class Sim:
                 self._check_node(sc, e[2], w, s)
         elif k == 'bin':
             op = e[1]
+            if op in ('/', '%', '>>', '>>>') and (self.ideal(sc, e[2]) < 0 or self.ideal(sc, e[3]) < 0):
+                # Python floors (// % >>) where Verilog truncates / shifts logically: a negative operand here is
+                # outside the stated (non-negative) domain
+                self.domain_violations += 1
+                return
             if op in ('&&', '||'):
                 for x in (e[2], e[3]):
                     w, s = self.size(sc, x)
